@@ -674,7 +674,7 @@ func ownOracle(c OwnCase) *ev.Verdict {
 		return oasVerdict("own:ill-formed", err, o.OpenAPI+"\n"+c.P.String())
 	}
 	if err := oas.Validate(inst, root, "#", ctx); err != nil {
-		return oasVerdict("own:example-invalid", err, "example "+o.Example+"\nschema "+o.OpenAPI+"\ncomponents "+fmt.Sprint(o.TypeOpenAPI)+"\n"+c.P.String())
+		return oasVerdict("example-invalid", err, "example "+o.Example+"\nschema "+o.OpenAPI+"\ncomponents "+fmt.Sprint(o.TypeOpenAPI)+"\n"+c.P.String())
 	}
 	ev.Class("own-registrations", "accepted, example judged")
 	return nil
@@ -684,6 +684,7 @@ func genOwn(t *rapid.T) OwnCase {
 	texts := []string{`"x1"`, `2`, "{\n  \"k\": 1\n}", "[\n  true\n]", `"x" // {minLength: 1}`, `2.5 // {min: 1}`, `true`, `null`}
 	var sp sut.Project
 	var root strings.Builder
+	inherit := rapid.IntRange(0, 2).Draw(t, "inherit") == 0 // the root inherits from the first carrier (when that is an object)
 	root.WriteString("{")
 	// carrier names before and after the carried names in byte order
 	names := rapid.SliceOfNDistinct(rapid.SampledFrom([]string{"@a", "@b", "@w", "@x1", "@z", "@zz"}), 1, 3, func(s string) string { return s }).Draw(t, "carriers")
@@ -694,6 +695,11 @@ func genOwn(t *rapid.T) OwnCase {
 			ty.Own = append(ty.Own, sut.Named{Name: "@y", Text: rapid.SampledFrom(texts).Draw(t, name+"y")})
 		}
 		sp.Types = append(sp.Types, ty)
+		if i == 0 && inherit && strings.HasPrefix(body, "{") {
+			fmt.Fprintf(&root, " // {allOf: %q}", name)
+		} else if i == 0 {
+			inherit = false
+		}
 		if i > 0 {
 			root.WriteString(",")
 		}
